@@ -88,7 +88,12 @@ func (dm *ClusterDMap) writePutCommand(c *dmap.PutConfig, key string, value []by
 	case c.HasEX:
 		cmd.SetEX(c.EX.Seconds())
 	case c.HasPX:
-		cmd.SetPX(c.PX.Milliseconds())
+		px := c.PX.Milliseconds()
+		if px == 0 && c.PX > 0 {
+			// Zero means "no expiry" on the wire, round a sub-millisecond time-to-live up.
+			px = 1
+		}
+		cmd.SetPX(px)
 	case c.HasEXAT:
 		cmd.SetEXAT(c.EXAT.Seconds())
 	case c.HasPXAT:
